@@ -146,7 +146,9 @@ def judge_rule_eval(obj, ev) -> None:
     if ev.truth is None:
         return
     mods = ev.truth[0]
-    for side in ("subs", "objs"):
+    # with the 'anything' object the documentation defines no explicit objects: a (redundant) object
+    # list given after import_anything() is not part of the rule
+    for side in ("subs",) if ev.cfg.get("anything") else ("subs", "objs"):
         for kind, name in ev.cfg[side]:
             if kind == "regex":
                 try:
